@@ -401,6 +401,7 @@ type refuseEdit struct {
 func withFees(p *MPayload, fees []MFee) string {
 	q := *p
 	q.HasFee, q.Fees = true, fees
+	q.Swap = nil // the edit's meaning is stated on the incoming amount
 	return q.Canonical()
 }
 
